@@ -205,7 +205,7 @@ pub fn run_generated<C>(
     eval: &(dyn Fn(&C) -> Outcome + Sync),
 ) -> SubReport
 where
-    C: Serialize + Debug + Clone + 'static,
+    C: Serialize + Debug + Clone + Hash + 'static,
 {
     let shards = ctx.threads.max(1).min(cases.max(1) as usize);
     let per = cases / shards as u32;
@@ -241,7 +241,7 @@ fn run_shard<C>(
     stop: &AtomicBool,
 ) -> SubReport
 where
-    C: Serialize + Debug + Clone + 'static,
+    C: Serialize + Debug + Clone + Hash + 'static,
 {
     let rep = RefCell::new(SubReport::new(sub));
     if cases == 0 {
@@ -272,7 +272,7 @@ where
             return Ok(());
         }
         let out = eval(&c);
-        let unknown = rep.borrow_mut().record(ctx, hash_debug(&c), || serde_json::to_value(&c).unwrap_or(Value::Null), &out);
+        let unknown = rep.borrow_mut().record(ctx, hash_of(&c), || serde_json::to_value(&c).unwrap_or(Value::Null), &out);
         if !unknown.is_empty() {
             *failed.borrow_mut() = true;
             stop.store(true, Ordering::Relaxed);
@@ -307,7 +307,7 @@ pub fn run_enumerated<C, I>(
     eval: &(dyn Fn(&C) -> Outcome + Sync),
 ) -> SubReport
 where
-    C: Serialize + Debug + Clone + Send + 'static,
+    C: Serialize + Debug + Clone + Send + Hash + 'static,
     I: Iterator<Item = C>,
 {
     let shards = ctx.threads.max(1);
@@ -318,7 +318,7 @@ where
                 let mut rep = SubReport::new(sub);
                 for c in shards_of(sh, shards) {
                     let out = eval(&c);
-                    let unknown = rep.record(ctx, hash_debug(&c), || serde_json::to_value(&c).unwrap_or(Value::Null), &out);
+                    let unknown = rep.record(ctx, hash_of(&c), || serde_json::to_value(&c).unwrap_or(Value::Null), &out);
                     if !unknown.is_empty() && rep.failure.is_none() {
                         rep.failure = Some(Failure {
                             case: serde_json::to_value(&c).unwrap_or(Value::Null),
@@ -379,7 +379,7 @@ pub struct PSub<C: 'static> {
 
 impl<C> DynSub for PSub<C>
 where
-    C: Serialize + DeserializeOwned + Debug + Clone + 'static,
+    C: Serialize + DeserializeOwned + Debug + Clone + Hash + 'static,
 {
     fn name(&self) -> &'static str {
         self.name
